@@ -17,7 +17,7 @@ import ast
 
 import z3
 
-from pyvc.values import (Obj, PyRaise, SymList, Unsupported, is_obj, is_z, isnone_of, str_of, truthy_of, ufunc, real_of)
+from pyvc.values import (NativeFn, Obj, PyRaise, SymList, Unsupported, is_obj, is_z, isnone_of, str_of, truthy_of, ufunc, real_of)
 from .common import typed_opaque
 
 PROPERTY = "C19"
@@ -116,7 +116,20 @@ def lib_policy():
         "optimize/opt_minuit.py::minuit_optimizer": opaque("minuit_optimizer"),
         "optimize/__init__.py::_OptimizerRetriever.__getattr__": "inline",
         "generic_iteration": True,
+        # get_backend() returns the backend that is current at the time of the call: one opaque value per number of earlier set_backend calls
+        ("module_attr", "pyhf", "get_backend"): NativeFn("get_backend", current_backend, wants_engine=True),
+        ("module_attr", "pyhf.tensor.manager", "get_backend"): NativeFn("get_backend", current_backend, wants_engine=True),
     }
+
+
+def current_backend(eng, default=False):
+    k = len([c for c in eng.path.calls if c.target == "tensor/manager.py::set_backend"])
+    rec = eng.log_call("get_backend", [], {})
+    tl = z3.Const(f"tensorlib_after_{k}_switches", Obj)
+    # tolist / astensor of the backend are value-preserving conversions (C04): identity on the library's result objects
+    eng.set_iface(tl, {"tolist": lambda e, self_obj, x: x, "astensor": lambda e, self_obj, x, **kw: x})
+    rec.result = (tl, z3.Const(f"optimizer_after_{k}_switches", Obj))
+    return rec.result
 
 
 LIB_TARGETS = {"workspace.py::Workspace", "patchset.py::PatchSet", "workspace.py::Workspace.combine", "workspace.py::Workspace.sorted",
@@ -352,6 +365,14 @@ def t_command(key):
                         made = [c for c in path.calls if isinstance(c.target, str) and c.target.endswith("::" + ctor)]
                         okopt = len(made) == 1 and occurs(eng, made[0].kwargs.get("**", made[0].kwargs), opts["optconf"]) and _is(eng, path, opt_calls[0].arg(1, "custom_optimizer", None), made[0].result)
                     (T.ok if okopt else T.fail)(f"{key}#fwd.optimizer+optconf->set_backend{sfx}", *([] if okopt else ["optimizer / optconf do not reach set_backend"]), kind="forwarding")
+                    if len(opt_calls) == 1:
+                        # the optimizer is registered WITH the backend that is current after the requested switch (not with an older handle)
+                        n_before = len([c for c in sb if c.seq < opt_calls[0].seq])
+                        want_tl = z3.Const(f"tensorlib_after_{n_before}_switches", Obj)
+                        got_tl = opt_calls[0].arg(0, "backend", None)
+                        okcur = got_tl is not None and z3.is_expr(got_tl) and got_tl.eq(want_tl)
+                        (T.ok if okcur else T.fail)(f"{key}#fwd.optimizer-registered-with-the-current-backend{sfx}",
+                                                    *([] if okcur else [f"set_backend receives {got_tl}, the backend current at that point is {want_tl}"]), kind="forwarding")
                     before = inf is not None and all(c.seq < inf for c in sb)
                     (T.ok if before else T.fail)(f"{key}#order.set_backend-before-inference{sfx}", *([] if before else ["set_backend after the inference call"]), kind="order")
                 # ---- inference call wiring
@@ -557,9 +578,34 @@ def t_extract_output(T):
         T.ob(eng, f"{key}#out.patch-selected-by-name{sfx}", path.hyps(), g, kind="forwarding")
 
 
+def t_optconf_precedence(T):
+    """repeated --optconf items: every key reaches the optimizer constructor, a key given twice takes its LAST value (ordinary option
+    semantics, identical for `fit` and `cls`)"""
+    for key in ("cli/infer.py::fit", "cli/infer.py::cls"):
+        a, b, c = (z3.Const(f"optval_{n}", Obj) for n in "abc")
+        enumvals = {"backend": "numpy", "optimizer": "scipy", "optconf": ({"maxiter": a}, {"maxiter": b, "tolerance": c})}
+        eng, f, names, opts, results = run_case(T, key, COMMANDS[key], enumvals)
+        seen = 0
+        for k, r in enumerate(results):
+            if r.kind != "return":
+                continue
+            made = [c_ for c_ in r.path.calls if isinstance(c_.target, str) and c_.target.endswith("::scipy_optimizer")]
+            if len(made) != 1:
+                T.fail(f"{key}#fwd.optconf-keys-last-value-wins@path{k}", f"{len(made)} optimizer constructions", kind="forwarding", option="optconf")
+                continue
+            seen += 1
+            kw = made[0].kwargs
+            ok = set(kw) == {"maxiter", "tolerance"}
+            if not ok:
+                T.fail(f"{key}#fwd.optconf-keys-last-value-wins@path{k}", f"optimizer settings {sorted(kw)}", kind="forwarding", option="optconf")
+                continue
+            T.ob(eng, f"{key}#fwd.optconf-keys-last-value-wins@path{k}", r.path.hyps(), z3.And(kw["maxiter"] == b, kw["tolerance"] == c), kind="forwarding", option="optconf")
+        (T.ok if seen else T.fail)(f"{key}#paths.optconf-precedence-case-explored", *([] if seen else ["no successful path"]), kind="raises")
+
+
 def tasks(tier):
     ts = [(k.split("/")[1].replace(".py::", "."), t_command(k)) for k in COMMANDS]
-    ts += [("infer.fit.output", t_fit_output), ("patchset.extract.output", t_extract_output)]
+    ts += [("infer.fit.output", t_fit_output), ("patchset.extract.output", t_extract_output), ("infer.optconf-precedence", t_optconf_precedence)]
     return ts
 
 
@@ -597,3 +643,85 @@ def replay(r):
                 "cli": "pyhf inspect ws.json --measurement does-not-exist", "cli_exit_code": res.exit_code,
                 "library": f"Workspace.model(measurement_name='does-not-exist') raises {lib_exc if not lib_ok else 'nothing'}"}
     return None
+
+
+# ---------------------------------------------------------------- inspect on a concrete-structured workspace (tables pair the right things)
+def t_inspect_tables(T):
+    """`pyhf inspect` on a workspace whose channels are listed in NON-alphabetical order with different bin counts, names shared
+    between modifier types and two measurements: the real Workspace / Model code is executed (numbers symbolic) and the dumped
+    object as well as the printed channel table must carry, for every channel, ITS bin count; samples, modifiers, parameters,
+    systematics and measurements as the library reports them."""
+    from pyvc.values import HostObj
+    from . import hf_skeleton as K
+    from .C16_workspace_ops import BIG
+    from .C18_roundtrip import build_workspace
+    key = "cli/spec.py::inspect"
+
+    class Stream(HostObj):
+        def __init__(self, name):
+            self.name = name
+
+        def __enter__(self):
+            return self
+
+        def __exit__(self, *a):
+            return False
+    for measurement in (None, "meas1"):
+        pol = K.pipeline_policy()
+        out = {"echo": [], "dump": []}
+        box = {}
+        pol.update({"ext:click.open_file": lambda e, c: Stream(c.args[0]), "ext:builtins.open": lambda e, c: Stream(c.args[0]),
+                    "ext:json.load": lambda e, c: box["doc"], "ext:click.echo": lambda e, c: out["echo"].append(c.args[0] if c.args else ""),
+                    "ext:json.dump": lambda e, c: out["dump"].append((c.args[0], c.args[1], dict(c.kwargs)))})
+        eng = T.engine(pol)
+        f = T.under_contract(eng, key)
+
+        def thunk():
+            out["echo"].clear()
+            out["dump"].clear()
+            doc, sym = build_workspace(BIG)
+            for cnd in sym.positivity():
+                eng.assume(cnd)
+            box["doc"] = doc
+            return eng.call_function(f, ["in.json", "out.json", measurement], {}, force_inline=True)
+        results = eng.explore(thunk)
+        T.absorb(eng, results)
+        tag = f"measurement={measurement}"
+        for k, r in enumerate(results):
+            sfx = f"@{tag},path{k}"
+            if r.kind != "return":
+                T.fail(f"{key}#tables.no-raise{sfx}", f"raises {r.exc_name} {getattr(r.value, 'eargs', '')}", kind="raises")
+                continue
+            doc = box["doc"]
+            want_channels = sorted((c["name"], len(c["samples"][0]["data"])) for c in doc["channels"])
+            want_samples = sorted({s["name"] for c in doc["channels"] for s in c["samples"]})
+            mods = sorted({(m["name"], m["type"]) for c in doc["channels"] for s in c["samples"] for m in s["modifiers"]})
+            kind = {"normfactor": "unconstrained", "shapefactor": "unconstrained", "shapesys": "constrained_by_poisson"}
+            want_pars = sorted({(n, kind.get(t, "constrained_by_normal")) for n, t in mods})
+            want_sys = [(n, kd, [t for n2, t in mods if n2 == n]) for n, kd in want_pars]
+            want_meas = [(m["name"], m["config"]["poi"], [p["name"] for p in m["config"]["parameters"]]) for m in doc["measurements"]]
+            ok = len(out["dump"]) == 1 and isinstance(out["dump"][0][0], dict)
+            (T.ok if ok else T.fail)(f"{key}#tables.one-object-dumped{sfx}", *([] if ok else [f"{len(out['dump'])} dumps"]), kind="forwarding")
+            if not ok:
+                continue
+            res = out["dump"][0][0]
+            for name, want, got in (("channels-with-their-own-bin-counts", want_channels, [tuple(x) for x in res.get("channels", [])]),
+                                    ("samples", want_samples, list(res.get("samples", []))),
+                                    ("modifiers", dict(mods), dict(res.get("modifiers", {}))),
+                                    ("parameters", want_pars, [tuple(x) for x in res.get("parameters", [])]),
+                                    ("systematics", [(a, b, sorted(c)) for a, b, c in want_sys], [(x[0], x[1], sorted(x[2])) for x in res.get("systematics", [])]),
+                                    ("measurements", want_meas, [(x[0], x[1], list(x[2])) for x in res.get("measurements", [])])):
+                same = want == got
+                (T.ok if same else T.fail)(f"{key}#tables.{name}{sfx}", *([] if same else [f"got {got!r}, the library reports {want!r}"]), kind="forwarding")
+            lines = [str(x).split() for x in out["echo"] if isinstance(x, str)]
+            okp = all([c, str(n)] in lines for c, n in want_channels)
+            (T.ok if okp else T.fail)(f"{key}#tables.printed-channel-table{sfx}", *([] if okp else ["a channel is printed with another channel's bin count"]), kind="forwarding")
+        if not results:
+            T.fail(f"{key}#tables.no-raise@{tag}", "no path", kind="raises")
+
+
+_c19_tasks = tasks
+
+
+def tasks(tier):
+    return _c19_tasks(tier) + [("spec.inspect.tables", t_inspect_tables)]
